@@ -32,6 +32,7 @@ package main
 import (
 	"encoding/json"
 	"fmt"
+	"strings"
 	"time"
 
 	"verif/seqx/httpgen"
@@ -51,7 +52,8 @@ type level struct {
 }
 
 type evaluator struct {
-	p *vkit.Part
+	p       *vkit.Part
+	maxBody int // Engine.MaxHTTPBodySize for every case of this evaluator (0: no limit)
 }
 
 func (e *evaluator) compare(ref *httpgen.Result, c *httpgen.Case, kind string, desc string) {
@@ -99,7 +101,7 @@ func (e *evaluator) stream(m *httpgen.Msg, client bool, lv level) {
 	for _, mode := range []httpgen.Mode{httpgen.Rec, httpgen.Real} {
 		refs := map[track.Policy]*httpgen.Result{}
 		for _, pol := range policies {
-			c := &httpgen.Case{Stream: m.B, Client: client, Mode: mode, ReadLimit: -1, Policy: pol}
+			c := &httpgen.Case{Stream: m.B, Client: client, Mode: mode, ReadLimit: -1, MaxBody: e.maxBody, Policy: pol}
 			r := httpgen.Run(c, false)
 			refs[pol] = r
 			e.p.Case(false, 1, r.Feeds)
@@ -130,7 +132,7 @@ func (e *evaluator) stream(m *httpgen.Msg, client bool, lv level) {
 			pols = []track.Policy{track.Pooled}
 		}
 		for _, pol := range pols {
-			c := &httpgen.Case{Stream: m.B, Client: client, Mode: mode, ReadLimit: -1, Policy: pol}
+			c := &httpgen.Case{Stream: m.B, Client: client, Mode: mode, ReadLimit: -1, MaxBody: e.maxBody, Policy: pol}
 			c.Lite = !(lv.trackCuts && pol == track.Pooled)
 			httpgen.SingleCuts(n, func(cuts []int) {
 				c.Cuts = cuts
@@ -141,7 +143,7 @@ func (e *evaluator) stream(m *httpgen.Msg, client bool, lv level) {
 			c.Every = 1
 			e.compare(refs[pol], c, "byte-at-a-time", m.Desc)
 		}
-		c := &httpgen.Case{Stream: m.B, Client: client, Mode: mode, ReadLimit: -1, Policy: track.Pooled}
+		c := &httpgen.Case{Stream: m.B, Client: client, Mode: mode, ReadLimit: -1, MaxBody: e.maxBody, Policy: track.Pooled}
 		for _, k := range []int{2, 3, 7} {
 			if n > k {
 				c.Every = k
@@ -153,7 +155,7 @@ func (e *evaluator) stream(m *httpgen.Msg, client bool, lv level) {
 		// an allocator that relocates a buffer when an append outgrows its (exact) capacity, as
 		// mempool.NewAligned does between size classes: the parser must keep the handle Append
 		// returns. Multi-read segmentations only (one cut never outgrows a carry-over twice).
-		mv := &httpgen.Case{Stream: m.B, Client: client, Mode: mode, ReadLimit: -1, Policy: track.Exact, Lite: true, Move: true}
+		mv := &httpgen.Case{Stream: m.B, Client: client, Mode: mode, ReadLimit: -1, MaxBody: e.maxBody, Policy: track.Exact, Lite: true, Move: true}
 		for _, k := range []int{1, 2, 5} {
 			if n > k {
 				mv.Every = k
@@ -213,6 +215,37 @@ func run(tier string, sh *vkit.Shard, p *vkit.Part) {
 		}
 	}
 
+	reqs, ress := httpgen.BaseRequests(), httpgen.BaseResponses()
+	// E (first, it is small). Engine.MaxHTTPBodySize set: for every base message and pipeline pair, every limit around
+	// the body sizes that occur (3 and 4: limits 2, 3, 4): the decision to accept or refuse a body, and where the
+	// refusal happens, must not depend on how the bytes arrived
+	lvE := level{double: true}
+	for _, set := range []struct {
+		ms     []*httpgen.Msg
+		client bool
+	}{{reqs, false}, {ress, true}} {
+		set := set
+		for _, limit := range []int{2, 3, 4} {
+			limit := limit
+			for i, a := range set.ms {
+				a := a
+				b := set.ms[(i+limit)%len(set.ms)]
+				if !strings.Contains(a.Desc, "cl") && !strings.Contains(a.Desc, "chunk") {
+					continue
+				}
+				item(func() {
+					le := &evaluator{p: p, maxBody: limit}
+					for k, m := range []*httpgen.Msg{a, httpgen.Pipeline(a, b)} {
+						mm := &httpgen.Msg{B: m.B, Marks: m.Marks, Desc: fmt.Sprintf("%s MaxHTTPBodySize=%d", m.Desc, limit)}
+						lv := lvE
+						lv.double = thorough || k == 0
+						le.stream(mm, set.client, lv)
+						p.Count("body_limit_streams", 1)
+					}
+				})
+			}
+		}
+	}
 	// A. the grammar, both directions
 	strideReq, strideRes := 23, 11
 	if thorough {
@@ -242,7 +275,6 @@ func run(tier string, sh *vkit.Shard, p *vkit.Part) {
 	})
 
 	// B. pipelines: all ordered pairs (thorough: also all ordered triples of the first five)
-	reqs, ress := httpgen.BaseRequests(), httpgen.BaseResponses()
 	lvB := level{double: true, policies3: true, trackCuts: true}
 	for _, set := range []struct {
 		ms     []*httpgen.Msg
